@@ -31,7 +31,6 @@ import (
 	"path/filepath"
 	"strings"
 
-	"github.com/knadh/koanf/v2"
 	"gopkg.in/yaml.v3"
 )
 
@@ -143,11 +142,6 @@ func c11rManifest(g *c11rGen, p c11rPkg) *yaml.Node {
 // (symbolic), 0: always populated by an earlier run.
 func VerifC11RulePlacement(emptyToo int) {
 	verifUseRepl("updatePackageInfoFromArgs")
-	if verifNative() {
-		// every case is a one-shot `yardl generate`, i.e. a fresh process: the native replay runs its cases in ONE
-		// process, and the package-level koanf instance remembers the `versions` of the package of the previous case
-		k = koanf.New(".")
-	}
 	root := verifPath("/pk")
 	// which previous versions the package lists: none, v1 (same import directory as the package), v2 (its own, older
 	// copy of the import).  Evolution compares the protocols of imported namespaces too, so a violation in an import
